@@ -119,9 +119,18 @@ def normalise_graph_states(edges, inits):
 
 
 def run_machine(prop, invs, props, tier, seed, schema="SchemaA", signature_prefix="", focus=None, export_depth=None):
+    import time
+
     cinco = common.import_repo()
     out = common.Outcome(prop)
     d = tlc.scratch("cinco-cfgm-")
+    t0 = [time.time()]
+    phases = {}
+
+    def lap(name):
+        phases[name] = round(time.time() - t0[0], 1)
+        t0[0] = time.time()
+
     depth = 2 if tier == "quick" else 3
     # 1. exhaustive model checking of this property's predicates
     cfg = os.path.join(d, "mc.cfg")
@@ -135,6 +144,7 @@ def run_machine(prop, invs, props, tier, seed, schema="SchemaA", signature_prefi
             "TLC: %s violated on ConfigMachine instance %s depth %d" % (res.violation, schema, depth),
             {"kind": "tlc-counterexample", "predicate": res.violation, "behaviour": res.cex},
         )
+    lap("tlc")
     desc = schema_descriptor("MC_Config", schema)
     adapter = cfgadapter.Adapter(cinco, desc)
     adapter.focus = focus
@@ -144,16 +154,20 @@ def run_machine(prop, invs, props, tier, seed, schema="SchemaA", signature_prefi
     write_cfg(cfgx, schema, export_depth or (1 if tier == "quick" else 2), export=True)
     exp = tlc.run("MC_Config.tla", cfgx, workers=1, keep=("INIT", "EDGE"))
     edges, inits = normalise_graph_states(exp.printed.get("EDGE", []), exp.printed.get("INIT", []))
+    lap("export")
     g = replay.Graph(inits, edges)
     stats, mism = replay.run_graph(adapter, g, seed=seed)
+    lap("replay")
     # 2b. deeper random behaviours from TLC's simulator
     cfgs = os.path.join(d, "sim.cfg")
     write_cfg(cfgs, schema, 99, export=True, bound=False)
-    nsim, dsim = (400, 10) if tier == "quick" else (4000, 14)
+    nsim, dsim = (200, 10) if tier == "quick" else (4000, 14)
     sim = tlc.run("MC_Config.tla", cfgs, workers=1, simulate=nsim, depth=dsim, seed=seed + 1, keep=("INIT", "EDGE"))
     sedges, sinits = normalise_graph_states(sim.printed.get("EDGE", []), sim.printed.get("INIT", []))
+    lap("simulate")
     g2 = replay.Graph(sinits + inits, sedges)
     stats2, mism2 = replay.run_graph(adapter, g2, seed=seed)
+    lap("replay_sim")
     for m in (mism + mism2)[:30]:
         op = m.ev.get("op")
         sub = (m.ev.get("o") or {}).get("m", "") if op == "COp" else m.ev.get("k", "")
@@ -163,7 +177,7 @@ def run_machine(prop, invs, props, tier, seed, schema="SchemaA", signature_prefi
             m.to_json(),
         )
     # 3. code -> spec
-    ntr, ltr = (250, 14) if tier == "quick" else (2500, 24)
+    ntr, ltr = (150, 14) if tier == "quick" else (2500, 24)
     traces = driver(cinco, desc, seed, ntr, ltr)
     tcfg = os.path.join(d, "trace.cfg")
     with open(tcfg, "w") as fp:
@@ -171,7 +185,9 @@ def run_machine(prop, invs, props, tier, seed, schema="SchemaA", signature_prefi
             base_cfg(schema, 99).replace("INIT Init", "INIT TraceInit").replace("NEXT Next", "NEXT TraceNext").replace("VIEW View", "VIEW TraceView")
             + "ACTION_CONSTRAINT Report\nCONSTRAINT ReportState\n"
         )
+    lap("driver")
     verdicts, tstats = tracecheck.validate("Trace_Config.tla", tcfg, traces, wanted=set(invs) | set(props))
+    lap("trace_validation")
     wanted = set(invs) | set(props)
     for v in [v for v in verdicts if not v.accepted][:30]:
         if v.bad_inv and not (set(v.bad_inv) & wanted):
@@ -200,6 +216,7 @@ def run_machine(prop, invs, props, tier, seed, schema="SchemaA", signature_prefi
         "spec_to_code_steps": stats["steps"] + stats2["steps"],
         "spec_to_code_by_op": {k: stats["by_op"].get(k, 0) + stats2["by_op"].get(k, 0) for k in set(stats["by_op"]) | set(stats2["by_op"])},
         "simulated_behaviours": nsim,
+        "phase_seconds_" + schema: phases,
         "code_to_spec_traces": len(verdicts),
         "code_to_spec_events": sum(len(t["events"]) for t in traces),
         "code_to_spec_tlc_states": tstats["states"],
@@ -236,7 +253,7 @@ def merge(a, b):
     ca["tlc_instance"] = ca["tlc_instance"] + " + " + cb["tlc_instance"]
     ca["samples"] = ca["samples"] + cb["samples"][:1]
     for k, v in cb.items():
-        if k.startswith(("family_", "keyfamily_")) or k == "phase_seconds":
+        if k.startswith(("family_", "keyfamily_", "phase_seconds")):
             ca[k] = v
     a.assumptions = a.assumptions + [x for x in b.assumptions if x not in a.assumptions]
     return a
